@@ -525,6 +525,17 @@ impl<'a> Gen<'a> {
                     }
                     out.push('\n');
                 }
+                3 if self.r.chance(1, 2) => {
+                    // a line led by fewer spaces than the indent, then a TAB (dedent + tab)
+                    let k = self.r.usize(content_indent + 1);
+                    for _ in 0..k {
+                        out.push(' ');
+                    }
+                    out.push('\t');
+                    let w = self.word();
+                    out.push_str(&w);
+                    out.push('\n');
+                }
                 2 => {
                     // more-indented line
                     for _ in 0..content_indent + 1 + self.r.usize(3) {
@@ -652,7 +663,9 @@ impl<'a> Gen<'a> {
                         }
                     }
                     out.push('-');
-                    if self.r.chance(1, 10) {
+                    if self.r.chance(1, 25) {
+                        out.push('\t');
+                    } else if self.r.chance(1, 10) {
                         out.push('\n');
                         for _ in 0..ind + 2 {
                             out.push(' ');
@@ -696,7 +709,7 @@ impl<'a> Gen<'a> {
                         if self.r.chance(1, 12) {
                             out.push('\n');
                         } else {
-                            out.push(' ');
+                            out.push(if self.r.chance(1, 25) { '\t' } else { ' ' });
                             self.block_node(ind, depth + 1, out, true);
                         }
                     }
@@ -735,7 +748,7 @@ impl<'a> Gen<'a> {
                     out.push_str(&w);
                 }
                 if self.r.chance(1, 10) {
-                    out.push_str(" # comment é");
+                    out.push_str(*self.r.pick(&[" # comment é", "\t# c", " \t", "\t", "  "]));
                 }
                 out.push('\n');
             }
